@@ -7,6 +7,7 @@ import BctVerif.Props.CoresDijk
 import BctVerif.Props.CoresPath
 import BctVerif.Props.CoresBin
 import BctVerif.Props.CoresBfs
+import BctVerif.Props.CoresReach
 
 /-!
 # T-gen for core update steps — the link theorems in one place
@@ -24,6 +25,7 @@ modules imported here prove, once and for all extracted values, what a passed ob
 | path (C12) | `Model/CoreIRPath.lean` | `CoresPath`: `loop_spec`, `link_retrieve` | `Dist.retrieve`, `Dist.retrieveGo` |
 | bin (C03) | `Model/CoreIRBin.lean` | `CoresBin`: `body_spec`, `loop_spec`, `link_distance_bin` | `Dist.boolMul`, `Dist.binLoop`, `Dist.binRaw`, `Dist.distBin` |
 | bfs (C03) | `Model/CoreIRBfs.lean` | `CoresBfs`: `quirk_step`, `paint_step`, `visit_step`, `inner_spec`, `pass_spec`, `loop_spec`, `link_breadth`, `link_breadth_model`, `link_breadthdist` | `Dist.quirk`, `paint`, `visit`, `blackenSt`, `bfsLoop`, `breadth`, `breadthdist` |
+| reach (C03) | `Model/CoreIRReach.lean` | `CoresReach`: `step_spec`, `rec_spec`, `link_reachdist` | `Dist.reachStep`, `reachGo`, `reachOutCell`, `reachdist` |
 | util (C17, C06) | `Model/CoreIRUtil.lean` | `CoresUtil`: `link_teachers_round`, `link_threshold_absolute`, `link_binarize`, `link_normalize`, `link_invert`, `link_logtransform`, `link_cuberoot`, `link_pick_four`, `link_weight_conversion`; `CoresTp` (`Model/CoreIRTp.lean`): `link_threshold_proportional` | `Thresh.teachersRound/thresholdAbsolute/binarize/normalize/invert/weightConversion/thresholdProportional`, `Signed.pickFour` |
 
 -/
